@@ -352,3 +352,16 @@ func (ip *fakeIdp) callsSince(n int) []*tokenCall {
 	defer ip.mu.Unlock()
 	return append([]*tokenCall{}, ip.calls[n:]...)
 }
+
+// clientRejection: the shapes in which a provider (or a gateway in front of it) rejects a grant with a 4xx status
+func clientRejection(shape int) *idpFault {
+	switch shape % 4 {
+	case 1:
+		return &idpFault{status: 401, body: "<html><body><h1>401 Unauthorized</h1></body></html>"}
+	case 2:
+		return &idpFault{status: 403, body: ""}
+	case 3:
+		return &idpFault{status: 400, body: "invalid_grant"}
+	}
+	return &idpFault{status: 400, body: `{"error":"invalid_grant","error_description":"revoked"}`}
+}
